@@ -3,7 +3,7 @@
 From Coq Require Import ZArith List Bool Lia.
 From IBL.lib Require Import PyInt.
 From IBL.C17 Require Import Model.
-From IBL.C03 Require Import Model RtLib Proofs.
+From IBL.C03 Require Import Model RtLib Proofs Gains.
 From IBL.C03 Require Rt_050_512 Rt_050_2048 Rt_050_8192 Rt_060_512 Rt_060_2048 Rt_060_8192
                      Rt_062_512 Rt_062_2048 Rt_062_8192 Rt_sync.
 Import ListNotations.
@@ -61,3 +61,79 @@ Print Assumptions C03_roundtrip_exact_062_8192.
 Theorem C03_roundtrip_exact_sync : forall r, -32768 <= r <= 32767 -> roundtrip gain_one r = r.
 Proof. exact (rt_of_check _ Rt_sync.chk). Qed.
 Print Assumptions C03_roundtrip_exact_sync.
+
+(* ---- window bookkeeping: the sample ranges the windows contribute tile [0, ns) ----
+   For every recording length and every window size above the hard-coded overlap of 576
+   (multiples of 12 included, alignment with the recording length not assumed): the
+   window loop terminates, and the kept ranges (ind2save margins 288 / W-288, first and
+   last window rules, slice clipping) start at 0, end at ns, are adjacent, non-empty and
+   in order. *)
+Theorem C03_kept_ranges_tile : forall ns W, 1 <= ns -> 576 < W ->
+  exists wins, firstlast ns W OVERLAP = Some wins /\
+  let ks := kept_list ns W wins 0 in
+  length ks = length wins /\
+  fst (nth 0 ks (0, 0)) = 0 /\ snd (nth (length ks - 1) ks (0, 0)) = ns /\
+  (forall i, (S i < length ks)%nat -> snd (nth i ks (0, 0)) = fst (nth (S i) ks (0, 0))) /\
+  (forall i, (i < length ks)%nat ->
+     0 <= fst (nth i ks (0, 0)) < snd (nth i ks (0, 0)) /\ snd (nth i ks (0, 0)) <= ns).
+Proof. exact pub_tiles. Qed.
+Print Assumptions C03_kept_ranges_tile.
+
+(* ---- what the converter writes, for ANY value conversion ----
+   every shank file = the first ns rows, converted value by value, restricted to that
+   shank's channels followed by the sync channel, in the original order. *)
+Theorem C03_split_is_column_subset : forall cap csy napch nsync nc labels ns W data,
+  1 <= ns -> 576 < W -> ns <= Z.of_nat (length data) ->
+  process_np24 cap csy napch nsync nc labels ns W data =
+  Some (map (fun sh => (sh, shank_chns labels nc nsync sh,
+                        map (gather (shank_chns labels nc nsync sh))
+                            (map (conv_row napch cap csy) (firstn (Z.to_nat ns) data))))
+            (shanks_of labels)).
+Proof. exact pub_split. Qed.
+Print Assumptions C03_split_is_column_subset.
+
+(* ---- lossless split and exact inverse, whenever the value conversion is exact ----
+   every assignment of the AP channels to shank labels, every window size > 576, every
+   reconstruction window size, every rectangular frame. *)
+Theorem C03_split_reconstruct_id : forall cap csy labels ns W Wr data,
+  labels <> [] -> 1 <= ns -> 576 < W -> 0 < Wr -> ns = Z.of_nat (length data) ->
+  (forall r, In r data -> length r = S (length labels)) ->
+  (forall r x, In r data -> In x r -> cap x = x /\ csy x = x) ->
+  exists split,
+    process_np24 cap csy (Z.of_nat (length labels)) 1 (Z.of_nat (length labels) + 1) labels ns W data
+      = Some split /\
+    split = split_spec labels (Z.of_nat (length labels) + 1) 1 data /\
+    reconstruct_w Wr (files_of_split split) = Some data.
+Proof. exact pub_roundtrip. Qed.
+Print Assumptions C03_split_reconstruct_id.
+
+(* ---- the property for NP2 recordings: all int16 sample values x the nine gain settings ---- *)
+Theorem C03_np2_split_lossless_and_inverse : forall g labels ns W data,
+  In g np2_gains ->
+  labels <> [] -> 1 <= ns -> 576 < W -> ns = Z.of_nat (length data) ->
+  (forall r, In r data -> length r = S (length labels)) ->
+  (forall r x, In r data -> In x r -> -32768 <= x <= 32767) ->
+  exists split,
+    process_np24 (roundtrip (gain_of g)) (roundtrip gain_one)
+                 (Z.of_nat (length labels)) 1 (Z.of_nat (length labels) + 1) labels ns W data
+      = Some split /\
+    split = split_spec labels (Z.of_nat (length labels) + 1) 1 data /\
+    reconstruct (files_of_split split) = Some data.
+Proof.
+  intros g labels ns W data Hg Hl Hns HW Hlen Hr Hv.
+  exact (pub_np2 g labels ns W RECON_WINDOW data Hg Hl Hns HW eq_refl Hlen Hr Hv).
+Qed.
+Print Assumptions C03_np2_split_lossless_and_inverse.
+
+(* Non-vacuity: a 2-window, 2-shank recording satisfies the hypotheses and the model computes it. *)
+Example C03_example_kept :
+  firstlast 1300 1200 OVERLAP = Some [(0, 1200); (624, 1300)] /\
+  kept_list 1300 1200 [(0, 1200); (624, 1300)] 0 = [(0, 912); (912, 1300)].
+Proof. vm_compute. split; reflexivity. Qed.
+
+Example C03_example_split :
+  let data := [[1; 2; 3; 100]; [4; 5; 6; 101]] in
+  process_np24 (fun x => x) (fun x => x) 3 1 4 [2; 0; 2] 2 1200 data =
+  Some [(0, [1; 3], [[2; 100]; [5; 101]]); (2, [0; 2; 3], [[1; 3; 100]; [4; 6; 101]])] /\
+  reconstruct [([1; 3], [[2; 100]; [5; 101]]); ([0; 2; 3], [[1; 3; 100]; [4; 6; 101]])] = Some data.
+Proof. vm_compute. split; reflexivity. Qed.
